@@ -157,14 +157,14 @@ def h02_worker(S, eager_extras=False, backend="mem", tasks_limit=2):
                 elif extra == "raising_callback":
                     def bad():
                         cb_log.append("bad")
-                        raise RuntimeError("callback failed")
+                        raise RuntimeError("callback {0} failed: {'code': 7}")
                     m.add_callback(bad)
                 elif extra == "raising_partial_callback":
                     import functools
 
                     async def abad(tag):
                         cb_log.append(tag)
-                        raise RuntimeError("callback failed")
+                        raise RuntimeError("callback {0} failed: {'code': 7}")
                     m.add_callback(functools.partial(abad, "bad"))     # a callable without __name__
                 if beh == "eager_reject_on_timeout":
                     try:
